@@ -312,6 +312,36 @@ def r2g_canonicaliser_whole_path(ctx):
             r.violate(key, "%s assembles its result with %s: the result is not the canonical form of the whole path" % (f.id, comp))
         else:
             r.ok(sample={"canonicaliser": f.id, "calls_in_result_slice": len(calls)})
+        # every answer is memoised, the unresolvable one too: the memo is what gives a path ONE identity for its life time (the
+        # per-file maps are keyed by the answer; a file that appears on disk later would be re-keyed and its old entries orphaned)
+        ins = {op.bb for m in pp_maps for op in db.ops_by_map.get(m, []) if op.fn.id == f.id and op.method == "insert"}
+        for cb, c in f.calls():
+            if not re.search(r"Path::canonicalize$|fs::canonicalize$", c.get("res") or ""):
+                continue
+            seen, st, esc = {cb}, [cb], None
+            while st:
+                b = st.pop()
+                if f.blocks[b]["t"][0] == "ret":
+                    esc = b
+                    break
+                for s2 in f.succs(b):
+                    if s2 not in seen and s2 not in ins:
+                        seen.add(s2)
+                        st.append(s2)
+            key2 = "R2g|%s|an answer that is not memoised" % f.id
+            if esc is not None and ins:
+                r.violate(key2, "%s returns after canonicalize() at %s on a path that does not store the answer in the path memo: "
+                                "the same path can get a different identity later" % (f.id, crate.span_str(c["span"])))
+            else:
+                r.ok()
+        # nobody else writes the memo: an entry put there by a computation (root + relative part) is not what the canonicaliser
+        # would have answered when the file itself is a symlink
+        for m in sorted(pp_maps):
+            for op in db.ops_by_map.get(m, []):
+                if op.mode == "X" and op.method in ("insert", "entry", "get_mut", "alter") and op.fn.root != f.id:
+                    r.violate("R2g|%s|%s written outside the canonicaliser" % (op.fn.root, m),
+                              "%s writes the path memo `%s` (%s at %s); only %s, which asks the file system, may" % (
+                                  op.fn.root, m, op.method, crate.span_str(op.call["span"]), f.id.split("::")[-1]))
     r.floor("caching canonicalisers", n, 1)
     return r
 
@@ -400,3 +430,54 @@ def r2h_handlers_pass_canonical_paths(ctx):
                     r.ok(sample={"call": key} if len(r.samples) < 4 else None)
     r.floor("path arguments handed to the database by handlers", n, 10)
     return r
+
+
+def r2i_cleanup_loop_runs_to_the_end(ctx):
+    r = Result("R2i", "a loop that walks a snapshot of keys and prunes entries of a shared map in its body (get_mut, "
+                      "remove_if, retain directly in the loop; a plain eviction by remove() may stop when it has freed enough) is left only when the snapshot is exhausted: no `return`, "
+                      "`break` or `?` inside it. A key that vanished meanwhile is skipped (`continue`); leaving the loop there "
+                      "keeps the stale entries of every later key, and whether that happens depends on the schedule")
+    from .r1e import natural_loops, _iterator_driven, _exit_switches
+    crate = ctx.bin
+    n = 0
+    for f in crate.real_fns():
+        if "_serde::" in f.id or f.id.startswith("<"):
+            continue
+        for h, latches, body in natural_loops(f):
+            if not _iterator_driven(f, h, body):
+                continue
+            muts = []
+            for b in sorted(body):
+                t = f.blocks[b]["t"]
+                if t[0] != "call":
+                    continue
+                res = t[1].get("res") or t[1].get("fn") or ""
+                if re.search(r"dashmap", res, re.I) and re.search(r"::_?(remove_if|get_mut|retain)(::<.*>)?$", res):
+                    muts.append(t[1])
+            if not muts:
+                continue
+            n += 1
+            ex = _exit_switches(f, body)
+            key = "R2i|%s|clean-up loop left early" % f.id
+            if len(ex) > 1:
+                r.violate(key, "the clean-up loop in %s (prunes a shared map at %s) has %d ways out besides the end of its "
+                               "snapshot (e.g. the test at %s)" % (
+                                   f.id, crate.span_str(muts[0]["span"]), len(ex) - 1,
+                                   crate.span_str(_term_span(f, ex[-1][0]))))
+            else:
+                r.ok(sample={"loop in": f.id.split("::")[-1], "prunes with": sorted({(m.get("res") or "").split("::")[-1] for m in muts})}
+                     if len(r.samples) < 4 else None)
+    r.floor("clean-up loops over shared maps", n, 2)
+    return r
+
+
+def _term_span(f, bb):
+    b = f.blocks[bb]
+    t = b["t"]
+    for x in reversed(t):
+        if isinstance(x, list) and len(x) == 5 and isinstance(x[0], int) and isinstance(x[4], str):
+            return x
+    for s in reversed(b["s"]):
+        if isinstance(s[-1], list) and len(s[-1]) == 5:
+            return s[-1]
+    return [0, 0, 0, 0, ""]
